@@ -64,9 +64,14 @@ class Mqtt:
         if topic not in cls.notify:
             cls.notify[topic] = set()
             _LOGGER.debug("mqtt.notify_add(%s) -> adding mqtt subscription", topic)
-            cls.notify_remove[topic] = await mqtt.async_subscribe(
-                cls.hass, topic, cls.mqtt_message_handler_maker(topic), encoding=encoding or "utf-8", qos=0
-            )
+            try:
+                cls.notify_remove[topic] = await mqtt.async_subscribe(
+                    cls.hass, topic, cls.mqtt_message_handler_maker(topic), encoding=encoding or "utf-8", qos=0
+                )
+            except BaseException:
+                # not subscribed (failure or cancellation): the next caller has to subscribe
+                del cls.notify[topic]
+                raise
         cls.notify[topic].add(queue)
 
     @classmethod
